@@ -6,7 +6,7 @@ OPS = ["operator[] write", "operator[] read/insert", "at()", "erase", "clear", "
 
 def units(tier):
     q = tier == "quick"
-    ns = [0, 1, 2, 3, 4] if q else [0, 1, 2, 3, 4, 5]
+    ns = [0, 1, 2, 3, 4, 5]
     W = 600 if q else 3000
     ents = [PathEntry("vp_main_fm_n%d_op%d" % (n, op), wall=W,
                       desc="FlatMap<int,int>: one %s with a symbolic key from an arbitrary valid %d-entry state (symbolic pairwise-distinct keys, symbolic values) vs. the insertion-ordered reference map: size, iteration order, at_index, lookup results" % (OPS[op], n),
